@@ -402,7 +402,7 @@ func (c *child) checkPayload(cmd string, payload []byte, tag string, oneByte boo
 				cls = "noncanonical-pubkey"
 			}
 			c.count("reserialize_mismatch")
-			c.violation("reserialize:"+name+":"+cls, fmt.Sprintf("accepted %s payload re-serializes to different bytes (%s): consumed %d bytes, re-serialization %d bytes", name, cls, consumed, len(reser)),
+			c.violation("reserialize:"+cls+":"+name, fmt.Sprintf("accepted %s payload re-serializes to different bytes (%s): consumed %d bytes, re-serialization %d bytes", name, cls, consumed, len(reser)),
 				map[string]interface{}{"consumed": consumed, "consumed_hex": vf.HexTrunc(payload[:consumed], 2048), "reserialized_hex": vf.HexTrunc(reser, 2048), "first_diff_offset": firstDiffOff(payload[:consumed], reser)})
 		}
 	}
@@ -610,6 +610,13 @@ func (c *child) checkStream(hc *hcase) {
 	default:
 		if err != nil {
 			c.count("stream_any_rejected")
+			// whatever the stream: never more than the maximum payload size
+			if large > pc.MAX_PAYLOAD_LEN+allocSlack {
+				c.violation("alloc:stream:"+cls, fmt.Sprintf("allocated %d bytes in large objects for a rejected stream (maximum payload size %d)", large, pc.MAX_PAYLOAD_LEN), map[string]interface{}{"allocated": large})
+				if large > 256<<20 {
+					c.costly()
+				}
+			}
 			return
 		}
 		c.count("stream_any_accepted")
